@@ -144,6 +144,42 @@ def gen(tier, seed, info):
                 ras.append("RA %d %d %s" % (w, len(acts), " ".join(acts)))
         yield wingen.header(rnd, nl, nc) + " " + " ".join(ras + ops) + " F F F F"
     info["reentrant_cases"] = nre + len(REENTRANT_FIXED)
+    # handlers that run a nested flush of the root after damaging something (only exposes besides: a nested
+    # flush uses up damage that the outer flush's already-drawn buffer then overwrites, see notes/C01.md),
+    # and handlers that change a window's geometry (their own included) and expose the old and new area
+    nfl = 2500 if tier == "quick" else 80000
+    for k in range(nfl):
+        nl, nc = rnd.randint(2, 6), rnd.randint(3, 9)
+        ops, sh = wingen.history(rnd, nl, nc, rnd.randint(4, 20), PROFILE_RE)
+        ras = []
+        ids = list(range(0, sh.next_id))
+        nested = k % 2 == 0
+        for w in ids:
+            if rnd.random() < 0.45:
+                acts = []
+                for _k in range(rnd.randint(1, 3)):
+                    tgt = rnd.choice(ids)
+                    if nested:
+                        a = rnd.choice(["ea", "ex", "ex", "fl"])
+                    else:
+                        a = rnd.choice(["ea", "ex", "sh", "hi", "ra", "lo", "xc", "rg", "rg", "rg"])
+                        if a == "rg" and rnd.random() < 0.5:
+                            tgt = w
+                        if a in ("sh", "hi", "ra", "lo", "xc", "rg") and tgt == 0:
+                            a = "ea"
+                    if a == "ex":
+                        acts.append("ex %d %d %d %d %d" % (tgt, rnd.randint(-1, nl), rnd.randint(-1, nc), rnd.randint(1, nl), rnd.randint(1, nc)))
+                    elif a == "rg":
+                        acts.append("rg %d %d %d %d %d" % (tgt, rnd.randint(-1, nl - 1), rnd.randint(-2, nc - 1), rnd.randint(1, nl), rnd.randint(1, nc)))
+                    elif a == "fl":
+                        acts.append("fl 0")
+                    else:
+                        acts.append("%s %d" % (a, tgt))
+                if nested and rnd.random() < 0.7 and "fl 0" not in acts:
+                    acts.append("fl 0")
+                ras.append("RA %d %d %s" % (w, len(acts), " ".join(acts)))
+        yield wingen.header(rnd, nl, nc) + " " + " ".join(ras + ops) + " F F F F"
+    info["nested_flush_and_geometry_cases"] = nfl
 
 
 def classify(case, obs):
